@@ -432,8 +432,68 @@ fn state_one<V: Variant>(st: &GeneratorState, rep: &mut Report) {
     }
 }
 
+/// Feed a short suffix to a generator built from the injected state and to the model
+/// continued from the same state (bucket counters near u32::MAX wrap in the reference).
+fn state_suffix_one<V: Variant>(st: &GeneratorState, suffix: &[u8], rep: &mut Report) {
+    let mut rs = ref_from_state(st, if V::NB == 48 { 48 } else { 256 });
+    if rs.n + suffix.len() as u64 > oracle::MAX_DATA_LENGTH {
+        return;
+    }
+    rs.update(suffix);
+    let r = guard(|| {
+        let mut g = V::gen_from_state(st);
+        g.update(suffix);
+        let mut outs = Vec::new();
+        for o in [30u8, 28, 2, 0] {
+            outs.push((o, g.finalize_with_options(&options(Opts(o))).map(|h| V::parts(&h))));
+        }
+        outs
+    });
+    let case = || {
+        Json::obj()
+            .with("variant", V::NAME)
+            .with("state", state_json(st))
+            .with("suffix", Json::hex(suffix))
+    };
+    match r {
+        Err(p) => rep.violation(
+            &format!("state+suffix|{}|panic", V::NAME),
+            &format!("panic: {} at {}", p.message, p.location),
+            case(),
+        ),
+        Ok(outs) => {
+            for (o, got) in outs {
+                rep.eval(1);
+                if let Some(exp) = rs.finalize(V::NB, V::CK, Opts(o)) {
+                    if let Some(class) = compare_outcome(&got, &exp) {
+                        rep.violation(
+                            &format!("state+suffix|{}|{}", V::NAME, class),
+                            &format!(
+                                "injected state continued with {} bytes, options {}: crate differs from the reference continued from the same state",
+                                suffix.len(),
+                                Opts(o).describe()
+                            ),
+                            case().with("options", o),
+                        );
+                    }
+                }
+            }
+        }
+    }
+    // did a counter wrap?
+    if st.buckets.iter().zip(rs.b.iter()).any(|(a, b)| b < a) {
+        rep.count("state:bucket_wrapped_during_suffix", 1);
+    }
+}
+
 pub fn state_check(st: &GeneratorState, rep: &mut Report) {
     all_variants!(state_one, st, rep);
+    if st.tail_len == 4 {
+        let mut rng = Rng::new(fingerprint(&st.len.to_le_bytes()) ^ st.buckets[7] as u64);
+        let n = rng.range(1, 48) as usize;
+        let suffix = if rng.chance(1, 2) { vec![rng.next_u8(); n] } else { rng.bytes(n) };
+        all_variants!(state_suffix_one, st, &suffix, rep);
+    }
 }
 
 pub fn run_state(ctx: &Ctx, rep: &mut Report) {
@@ -472,6 +532,7 @@ pub fn run_state(ctx: &Ctx, rep: &mut Report) {
     rep.floor("state:BucketsAreHalfEmpty", 1);
     rep.floor("state:BucketsAreThreeQuarterEmpty", 1);
     rep.floor("state:TooLargeInput", 1);
+    rep.floor("state:bucket_wrapped_during_suffix", 5);
 }
 
 // ---------------------------------------------------------------------------
@@ -699,6 +760,9 @@ pub fn replay(case: &Json, rep: &mut Report) -> bool {
     }
     if let Some(st) = case.get("state").and_then(state_from_json) {
         state_check(&st, rep);
+        if let Some(sfx) = case.get_hex("suffix") {
+            all_variants!(state_suffix_one, &st, &sfx, rep);
+        }
         return true;
     }
     if let (Some(raw), Some(q)) = (case.get_hex("buckets_le32"), case.get("q").and_then(|q| q.as_arr())) {
